@@ -1,25 +1,3 @@
-pub proof fn lemma_sorted_start_lower(l: Seq<CharSet>, i: int)
-    requires cp_sorted(l), 0 <= i < l.len(),
-    ensures l[i].start >= i,
-    decreases i,
-{
-    if i > 0 {
-        lemma_sorted_start_lower(l, i - 1);
-        assert(l[i - 1].end < l[i].start);
-        assert(cs_wf(l[i - 1]));
-    }
-}
-
-pub proof fn lemma_sorted_len_bound(l: Seq<CharSet>)
-    requires cp_sorted(l),
-    ensures l.len() <= MAX_CHAR + 1,
-{
-    if l.len() > 0 {
-        lemma_sorted_start_lower(l, l.len() - 1);
-        assert(cs_wf(l[l.len() - 1]));
-    }
-}
-
 // every valid class has a member
 pub proof fn lemma_class_nonempty(e: RegLan, cid: ClassId) -> (c: u32)
     requires re_ok(*e), cp_valid(*e.deriv_class, cid),
